@@ -348,6 +348,64 @@ func c10EveryPath(c *Ctx, r *R) {
 			}
 			r.Check(okE, "file-rule-error:"+short, fk.Pos(), "a failed file rule → ErrVerificationFailed", "a failed file-rule verification is not fatal")
 		}
+		// the trusted-verifier shortcut is per commit: the name handed to withTrustedVerifier is
+		// either "" or the verifier that accepted an earlier path OF THE SAME COMMIT. The variable must
+		// therefore be (re)initialised inside the commit loop: its phi web has no phi in the head of
+		// the loop that advances the commit (otherwise a verifier that accepted commit A is trusted,
+		// without any signature check, for commit B).
+		_, ctors, _ := optionNames(fk)
+		if tv, has := optionCtor(ctors, "withTrustedVerifier"); has {
+			commitHead := map[*ssa.BasicBlock]bool{}
+			for in := range loopHeads(fn) {
+				iff := in.(*ssa.If)
+				if bo, ok := iff.Cond.(*ssa.BinOp); ok && bo.Op == token.LSS {
+					if eng.PLen(func(v ssa.Value) bool {
+						for _, root := range eng.Roots(pc.Arg(0)) {
+							if u, ok := root.(*ssa.UnOp); ok {
+								if ia, ok := u.X.(*ssa.IndexAddr); ok && sameObjVal(ia.X, v) {
+									return true
+								}
+							}
+						}
+						return false
+					})(bo.Y) {
+						commitHead[iff.Block()] = true
+					}
+				}
+			}
+			carried := false
+			okSrc := true
+			seen := map[ssa.Value]bool{}
+			var walk func(v ssa.Value)
+			walk = func(v ssa.Value) {
+				v = eng.Strip(v)
+				if seen[v] {
+					return
+				}
+				seen[v] = true
+				switch x := v.(type) {
+				case *ssa.Phi:
+					if commitHead[x.Block()] {
+						carried = true
+					}
+					for _, e := range x.Edges {
+						walk(e)
+					}
+				case *ssa.Const:
+					if s, isC := eng.ConstString(x); !isC || s != "" {
+						okSrc = false
+					}
+				default:
+					if k, idx, ok := eng.RootCall(v); !ok || idx != 0 || k.Instr != fk.Instr {
+						okSrc = false
+					}
+				}
+			}
+			walk(tv.Arg(0))
+			r.Check(len(commitHead) > 0 && !carried && okSrc, "trusted-verifier-per-commit:"+short, tv.Pos(),
+				"the trusted-verifier name is \"\" or the verifier that accepted an earlier path of the same commit, and is reset for every commit",
+				"the name given to withTrustedVerifier survives from one commit to the next (or has another source): a verifier that accepted one commit would be trusted for the next commit's paths without that commit's signature being checked")
+		}
 		// options: no withVerifyMergeable on the file-rule call (C19)
 		names, _, _ := optionNames(fk)
 		okN := true
